@@ -314,6 +314,23 @@ static void c10_case (long idx, vf_rng *r)
             if (so && p1 != p2) { snprintf (key, sizeof key, "C10:fill-colour-narrowing:%s", rp_name (f)); vf_violation (key, "colour (a=%04x r=%04x g=%04x b=%04x) is stored as %x by fill_boxes, %x by compositing a solid image", c.alpha, c.red, c.green, c.blue, p1, p2); k = 6; }
             if (so) pixman_image_unref (so); pixman_image_unref (e1); pixman_image_unref (e2); vf_buf_free (&E1); vf_buf_free (&E2);
         }
+        /* narrowing is monotone and maps the maximum to the maximum: float values ABOVE 1.0 (an operator that does not clamp, MULTIPLY onto opaque white,
+         * hands them to the store) narrow to the channel maximum, however large they are */
+        if (chunk == 0 && rp_is_direct (f) && bpp <= 32) {
+            static const float big[] = { 1.0f, 1.5f, 255.0f, 4194304.0f, 16777216.0f, 2147483648.0f, 1e10f, 3e38f, 4194303.0f, 70000.0f };
+            int nb = (int)(sizeof big / sizeof big[0]); vf_buf FS, FD; 
+            if (vf_buf_alloc (&FS, PIXMAN_rgba_float, nb, 1, 0, 0, VF_PLACE_END) && vf_buf_alloc (&FD, f, nb + 2, 1, 0, 0, vf_default_place (r))) {
+                float *fp = (float *)FS.base; for (int i = 0; i < nb; i++) { fp[4 * i] = big[i]; fp[4 * i + 1] = big[(i + 3) % nb]; fp[4 * i + 2] = big[(i + 5) % nb]; fp[4 * i + 3] = 1.0f; }
+                memset (FD.base, 0xff, FD.bytes);
+                pixman_image_t *fs = vf_buf_image (&FS), *fd = vf_buf_image (&FD);
+                vf_inflight ("over-range floats narrowed to %s", rp_name (f));
+                pixman_image_composite32 (PIXMAN_OP_MULTIPLY, fs, NULL, fd, 0, 0, 0, 0, 1, 0, nb, 1);
+                for (int i = 0; i < nb; i++) { uint32_t got = vf_get_px (vf_buf_row (&FD, 0), bpp, 1 + i);
+                    if ((got & dmask) != dmask) { snprintf (key, sizeof key, "C10:over-range-float-not-narrowed-to-maximum:%s", rp_name (f)); vf_violation (key, "colour (%g,%g,%g) alpha 1 multiplied onto opaque white is stored as %x, not as the channel maxima %x", fp[4 * i], fp[4 * i + 1], fp[4 * i + 2], got & dmask, dmask); break; } }
+                vf_count ("evaluations", nb); vf_count ("over_range_floats", nb);
+                pixman_image_unref (fs); pixman_image_unref (fd); vf_buf_free (&FS); vf_buf_free (&FD);
+            }
+        }
         long ne = 0; int wide = rp_is_wide (f);
         for (int i = 0; i < n; i++) {
             uint32_t got = vf_get_px (vf_buf_row (&D, 0), bpp, off + i), got2 = vf_get_px (vf_buf_row (&D2, 0), bpp, off + i); ne += 2;
